@@ -146,4 +146,32 @@ theorem removeMethod_gone (d : Doc) (k : Id) (hi : Inv d) :
         rw [removeRels_vm]; exact hi.uVm
       exact remove_gone Method.id _ k hu v hv
 
+/-! ### removing an id nothing carries; removing the entry appended last -/
+
+theorem remove_absent {α : Type} (key : α → Id) (l : List α) (k : Id) (h : ∀ y ∈ l, key y ≠ k) :
+    OSet.remove key l k = (l, none) := by
+  induction l with
+  | nil => rfl
+  | cons y ys ih =>
+    have hy : key y ≠ k := h y List.mem_cons_self
+    simp [OSet.remove, hy, ih (fun z hz => h z (List.mem_cons_of_mem _ hz))]
+
+theorem remove_last {α : Type} (key : α → Id) (l : List α) (m : α) (h : ∀ y ∈ l, key y ≠ key m) :
+    OSet.remove key (l ++ [m]) (key m) = (l, some m) := by
+  induction l with
+  | nil => simp [OSet.remove]
+  | cons y ys ih =>
+    have hy : key y ≠ key m := h y List.mem_cons_self
+    simp [OSet.remove, hy, ih (fun z hz => h z (List.mem_cons_of_mem _ hz))]
+
+theorem removeRels_absent (k : Id) (L : List Rel) : ∀ d : Doc, (∀ r, ∀ e ∈ d.getRel r, e.id ≠ k) →
+    removeRels d k L = (d, none) := by
+  induction L with
+  | nil => intro d _; rfl
+  | cons r rs ih =>
+    intro d h
+    unfold removeRels
+    simp only [remove_absent MRef.id (d.getRel r) k (h r), setRel_getRel, ih d h]
+
+
 end IdModel.Store
